@@ -52,6 +52,7 @@ class St:
         self.hgen_unknown = False  # an unmodelled effect havocked the whole heap
         self.owner_bound = None    # closures: objects at or above this reference are owned by the enclosing call
         self.fresh_only = None     # inside a loop declared writes='fresh': (bound, exempt receiver terms)
+        self.nonneg = frozenset()  # ids of bound variables whose range starts at a literal >= 0 (index needs no wrap)
 
     def fork(self):
         s = St()
@@ -72,6 +73,7 @@ class St:
         s.hgen_unknown = self.hgen_unknown
         s.owner_bound = self.owner_bound
         s.fresh_only = self.fresh_only
+        s.nonneg = self.nonneg
         return s
 
     def assume(self, c):
